@@ -80,10 +80,19 @@ func startWorker() *worker {
 	return &worker{cmd: cmd, in: in, out: bufio.NewReaderSize(out, 1<<16)}
 }
 
+// kill ends the worker: end of input lets a healthy worker return from main by itself (so that a coverage build
+// writes its counters); a worker that hangs is killed after a moment.
 func (w *worker) kill() {
 	w.in.Close()
+	done := make(chan struct{})
+	go func() { _ = w.cmd.Wait(); close(done) }()
+	select {
+	case <-done:
+		return
+	case <-time.After(300 * time.Millisecond):
+	}
 	_ = w.cmd.Process.Kill()
-	_ = w.cmd.Wait()
+	<-done
 }
 
 // scenarioTimeout is far above anything a scenario needs (callbacks sleep a few ms in total); it only
@@ -172,7 +181,9 @@ func runAll(specs []string) [][]string {
 				}
 				ls, ok := w.run(specs[i])
 				res[i] = ls
-				if !ok {
+				if !ok || strings.Contains(specs[i], ",GP") || strings.Contains(specs[i], ",GS") ||
+					strings.Contains(specs[i], " GP") || strings.Contains(specs[i], " GS") {
+					// hung / died, or the scenario set a process-wide function that cannot be cleared again
 					w.kill()
 					w = startWorker()
 				}
@@ -195,7 +206,8 @@ type execT struct{ have bool }
 
 var replayMode bool
 
-var eventWords = map[string]bool{"call": true, "ret": true, "beg": true, "end": true, "en": true, "dis": true, "latereg": true, "obs": true, "fin": true}
+var eventWords = map[string]bool{"call": true, "ret": true, "beg": true, "end": true, "en": true, "dis": true, "latereg": true, "obs": true, "fin": true,
+	"setg": true, "glob": true}
 
 func (e *execT) Do(line string) string {
 	if strings.HasPrefix(line, "hang") {
@@ -392,8 +404,11 @@ func (g *gen) scenario() (*scenario, string) {
 			run = 1
 		}
 		mode := "e"
-		if rng.Intn(4) == 0 {
+		switch rng.Intn(8) {
+		case 0, 1:
 			mode = "p"
+		case 2, 3, 4:
+			mode = errClasses[rng.Intn(len(errClasses))] // WHAT the callback returns: see errDict
 		}
 		sc.Fail[fmt.Sprintf("%d.%s.%d", m, kindLetter[k], run)] = mode
 		g.r.Count("fail:" + kindName[k] + ":" + mode)
@@ -497,6 +512,146 @@ func (g *gen) scenario() (*scenario, string) {
 	return sc, kind
 }
 
+// outsideScenario: calls around and outside the usual Start … Shutdown bracket, which the module system does not
+// refuse and the model describes as the code is written: ManageModules before Start, a first Start after
+// Shutdown, ManageModules after Shutdown, repeated calls; and the process-wide functions Start and Shutdown run
+// besides the module routines: global prep function (first one set wins; may fail with any error value), global
+// shutdown function, command-line operation (last one set wins).
+func (g *gen) outsideScenario() (*scenario, string) {
+	rng := g.rng
+	var sc *scenario
+	for {
+		var kind string
+		sc, kind = g.scenario()
+		if !strings.HasPrefix(kind, "cyclic") && !strings.HasPrefix(kind, "missing-dep") && sc.N <= 8 {
+			break
+		}
+	}
+	n := sc.N
+	var ops []string
+	ed := func(k int) {
+		for ; k > 0 && n > 0; k-- {
+			if rng.Intn(3) != 0 {
+				ops = append(ops, fmt.Sprintf("E%d", rng.Intn(n)))
+			} else {
+				ops = append(ops, fmt.Sprintf("D%d", rng.Intn(n)))
+			}
+		}
+	}
+	class := []string{"manage-before-start", "start-after-shutdown", "manage-after-shutdown", "global-functions", "global-functions", "mixed"}[rng.Intn(6)]
+	globals := func() {
+		// which functions are set, in which order, and what they return
+		if rng.Intn(3) != 0 {
+			ops = append(ops, fmt.Sprintf("GP%d", rng.Intn(3)))
+			if rng.Intn(3) == 0 {
+				ops = append(ops, fmt.Sprintf("GP%d", rng.Intn(3))) // ignored: the first function stays
+			}
+		}
+		if rng.Intn(2) == 0 {
+			ops = append(ops, fmt.Sprintf("GS%d", rng.Intn(3)))
+			if rng.Intn(3) == 0 {
+				ops = append(ops, fmt.Sprintf("GS%d", rng.Intn(3)))
+			}
+		}
+		if rng.Intn(3) == 0 {
+			ops = append(ops, fmt.Sprintf("GC%d", rng.Intn(3)))
+			if rng.Intn(3) == 0 {
+				ops = append(ops, fmt.Sprintf("GC%d", rng.Intn(3))) // replaces the previous one
+			}
+		}
+		for i := 0; i < 3; i++ {
+			if rng.Intn(4) == 0 {
+				sc.Fail[fmt.Sprintf("G.p.%d", i)] = errClasses[rng.Intn(len(errClasses))]
+			}
+			if rng.Intn(4) == 0 {
+				sc.Fail[fmt.Sprintf("G.c.%d", i)] = errClasses[rng.Intn(len(errClasses))]
+			}
+		}
+	}
+	switch class {
+	case "manage-before-start":
+		sc.Mgmt = rng.Intn(5) != 0
+		ed(rng.Intn(3))
+		ops = append(ops, "M")
+		ed(rng.Intn(3))
+		if rng.Intn(2) == 0 {
+			ops = append(ops, "M")
+		}
+		ops = append(ops, "S")
+		ed(rng.Intn(3))
+		if rng.Intn(2) == 0 {
+			ops = append(ops, "M")
+		}
+		ops = append(ops, "X")
+	case "start-after-shutdown":
+		ed(rng.Intn(3))
+		if rng.Intn(4) == 0 {
+			ops = append(ops, "M")
+		}
+		ops = append(ops, "X", "S")
+		ed(rng.Intn(3))
+		if rng.Intn(2) == 0 {
+			ops = append(ops, "M")
+		}
+		if rng.Intn(2) == 0 {
+			ops = append(ops, "X")
+		}
+		if rng.Intn(4) == 0 {
+			ops = append(ops, "S")
+		}
+	case "manage-after-shutdown":
+		sc.Mgmt = rng.Intn(5) != 0
+		ed(rng.Intn(4))
+		ops = append(ops, "S")
+		ed(rng.Intn(3))
+		if rng.Intn(2) == 0 {
+			ops = append(ops, "M")
+		}
+		ops = append(ops, "X")
+		for k := 1 + rng.Intn(3); k > 0; k-- {
+			ed(rng.Intn(3))
+			ops = append(ops, "M")
+		}
+		if rng.Intn(2) == 0 {
+			ops = append(ops, "X")
+		}
+	case "global-functions":
+		globals()
+		ed(rng.Intn(3))
+		ops = append(ops, "S")
+		if rng.Intn(6) == 0 {
+			ops = append(ops, "S")
+		}
+		ed(rng.Intn(3))
+		if rng.Intn(2) == 0 {
+			ops = append(ops, "M")
+		}
+		if rng.Intn(8) != 0 {
+			ops = append(ops, "X")
+		}
+		if rng.Intn(6) == 0 {
+			ops = append(ops, "X")
+		}
+	default:
+		globals()
+		for k := 3 + rng.Intn(6); k > 0; k-- {
+			switch rng.Intn(6) {
+			case 0:
+				ops = append(ops, "S")
+			case 1:
+				ops = append(ops, "X")
+			case 2, 3:
+				ops = append(ops, "M")
+			default:
+				ed(1 + rng.Intn(2))
+			}
+		}
+	}
+	sc.Notify = sc.Mgmt && sc.Notify
+	sc.Ops = ops
+	return sc, "outside/" + class
+}
+
 // restartScenario: a short chain with instantaneous callbacks; Start, optionally one management pass that
 // stops and restarts the top module, then Shutdown immediately.
 func (g *gen) restartScenario() *scenario {
@@ -524,6 +679,37 @@ func (g *gen) restartScenario() *scenario {
 		sc.Ops = []string{fmt.Sprintf("E%d", top), "S", fmt.Sprintf("D%d", top), "M", fmt.Sprintf("E%d", top), "M", "X"}
 	}
 	return sc
+}
+
+// errorValueScenarios: every error-value class of errDict x {prep, start, stop} x position in a short chain,
+// without and with module management. A routine that returns a non-nil error has failed, whatever the value
+// is, wraps or claims to be: its dependents must not start on top of it, Start must not return nil, no stop
+// routine is owed for it.
+func errorValueScenarios() []*scenario {
+	var out []*scenario
+	for _, cls := range errClasses {
+		for k := 0; k < 3; k++ {
+			for pos := 0; pos < 2; pos++ {
+				for mg := 0; mg < 2; mg++ {
+					n := 3
+					sc := &scenario{N: n, Deps: make([][]int, n), Nil: make([][3]bool, n), Dur: make([][3]int, n), Fail: map[string]string{}}
+					for i := 1; i < n; i++ {
+						sc.Deps[i] = []int{i - 1}
+					}
+					sc.Fail[fmt.Sprintf("%d.%s.0", pos, kindLetter[k])] = cls
+					if mg == 1 {
+						sc.Mgmt = true
+						// the failed routine is retried by the management pass (second invocation succeeds)
+						sc.Ops = []string{"E2", "S", "M", "D2", "M", "X"}
+					} else {
+						sc.Ops = []string{"S", "X"}
+					}
+					out = append(out, sc)
+				}
+			}
+		}
+	}
+	return out
 }
 
 // regression scenarios: run first, every time.
@@ -589,6 +775,11 @@ func generate(r *hxlib.Run, emit func(hxlib.Case)) {
 					r.Count("event:" + strings.Join(strings.Fields(l)[:2], "-"))
 				case strings.HasPrefix(l, "ret "):
 					r.Count("event:" + strings.ReplaceAll(l, " ", "-"))
+				case strings.HasPrefix(l, "glob "):
+					ff := strings.Fields(l)
+					r.Count("event:glob-" + ff[1] + "-" + ff[len(ff)-1])
+				case strings.HasPrefix(l, "setg "):
+					r.Count("event:setg-" + strings.Fields(l)[1])
 				case strings.HasPrefix(l, "hang"), strings.HasPrefix(l, "crash"), strings.HasPrefix(l, "bad-"):
 					r.Count("event:" + strings.Fields(l)[0])
 				}
@@ -607,8 +798,23 @@ func generate(r *hxlib.Run, emit func(hxlib.Case)) {
 		batch = append(batch, item{l, "corpus", sc})
 	}
 	flush()
+	for _, sc := range errorValueScenarios() {
+		batch = append(batch, item{sc.line(), "error-value", sc})
+		for key, cls := range sc.Fail {
+			r.Count("error-value:" + strings.Split(key, ".")[1] + ":" + cls)
+		}
+	}
+	flush()
 	for i := 0; i < total; i++ {
 		sc, kind := g.scenario()
+		batch = append(batch, item{sc.line(), kind, sc})
+		if len(batch) >= 512 {
+			flush()
+		}
+	}
+	flush()
+	for i := 0; i < r.Budget(3000, 50000); i++ {
+		sc, kind := g.outsideScenario()
 		batch = append(batch, item{sc.line(), kind, sc})
 		if len(batch) >= 512 {
 			flush()
@@ -633,8 +839,12 @@ func generate(r *hxlib.Run, emit func(hxlib.Case)) {
 
 const rule = "one case = one scenario executed on the real module system: a generated dependency graph (random DAGs, chains, layers, fans, diamonds, trees; " +
 	"1-12 modules quick, 1-16 thorough; registration order is not a topological order), callbacks with generated run times, a generated set of " +
-	"prep/start/stop callbacks that fail or panic, nil callbacks, and a sequence Start, Enable/Disable+ManageModules…, Shutdown (plus glue: double " +
-	"Start/Shutdown, late Register, cycles, unregistered dependencies), plus a class of short chains with instantaneous callbacks where the " +
+	"prep/start/stop callbacks that panic or return an error (the returned VALUE drawn from a dictionary: plain, context.Canceled / DeadlineExceeded / " +
+	"ErrCleanExit / ErrRestartNow bare, %w-wrapped, twice wrapped and joined, *ModuleError, an error whose Is method says yes to everything, a typed nil " +
+	"pointer, an empty message, io.EOF; every class x prep/start/stop also runs as a fixed sweep on a 3-chain), nil callbacks, and a sequence Start, Enable/Disable+ManageModules…, Shutdown (plus glue: double " +
+	"Start/Shutdown, late Register, cycles, unregistered dependencies), a class of calls outside that bracket (ManageModules before Start, a first " +
+	"Start after Shutdown, ManageModules after Shutdown, random call orders) with global prep functions (first set wins; failing with any " +
+	"error value of the dictionary), global shutdown functions and command-line operations (last set wins), plus a class of short chains with instantaneous callbacks where the " +
 	"module started last is stopped (and restarted) within microseconds. The recorded history (callback begin/end in global order, return values, " +
 	"status/enabled/enabled-as-dependency of every module after each call) is replayed through the Lean model (acceptor) and judged by the monitor. " +
 	"Non-trivial: at least 2 modules, at least one dependency edge and at least two start routines ran; distinct by hash of scenario + history."
